@@ -2,3 +2,4 @@
 //! crate's documentation – not from its code.
 
 pub mod instr;
+pub mod isa;
